@@ -5,6 +5,7 @@ package main
 // discharge each by a local dominance argument.
 
 import (
+	"os"
 	"fmt"
 	"go/constant"
 	"go/token"
@@ -440,6 +441,42 @@ func dischargeIndex(fn *ssa.Function, site ssa.Instruction, x, i ssa.Value) (boo
 	}
 	// array with masked / bounded index
 	if n, ok := arrayLen(x.Type()); ok {
+		// the counter of a rotated loop: i = phi(c0, next) where the back edge is taken only under next < K (K <= len)
+		if phi, isPhi := unconvNum(i).(*ssa.Phi); isPhi && nonNegative(i, 0) {
+			all := len(phi.Edges) > 0
+			for ei, e := range phi.Edges {
+				if k, isC := constInt(e); isC {
+					if k < 0 || k >= n {
+						all = false
+					}
+					continue
+				}
+				pred := phi.Block().Preds[ei]
+				iff, isIf := pred.Instrs[len(pred.Instrs)-1].(*ssa.If)
+				okEdge := false
+				if isIf {
+					if bo, isB := iff.Cond.(*ssa.BinOp); isB {
+						for si, sc := range pred.Succs {
+							if sc != phi.Block() {
+								continue
+							}
+							truth := si == 0
+							if sameVal(bo.X, e) {
+								if k, isC := constInt(bo.Y); isC {
+									okEdge = (bo.Op == token.LSS && truth && k <= n) || (bo.Op == token.LEQ && truth && k < n) || (bo.Op == token.GEQ && !truth && k <= n) || (bo.Op == token.GTR && !truth && k < n)
+								}
+							}
+						}
+					}
+				}
+				if !okEdge {
+					all = false
+				}
+			}
+			if all {
+				return true, "loop counter: starts inside the array and the back edge is taken only while the next value is below the array's length"
+			}
+		}
 		// i < K (K <= array length) on the way here: the range loop over an array value, or an explicit test
 		for _, fc := range facts {
 			bo, isB := fc.cond.(*ssa.BinOp)
@@ -720,6 +757,9 @@ func collectPanicObligations(c *Ctx, li *LockInfo, fns map[*ssa.Function]bool, v
 								if fs["CanInterface("+atomStr(callArgs(c2)[0])+")=true"] {
 									okK, why = true, "on the CanInterface() edge of the value whose address is taken"
 								}
+							}
+							if os.Getenv("VERIF_DBG") != "" {
+								fmt.Fprintf(os.Stderr, "DBG Interface in %s: roots=%v discipline=%v\n", fnKey(f), reflectRootsAllExported(li, f), reflectDescentDiscipline(li, f))
 							}
 							if !okK && reflectRootsAllExported(li, f) && reflectDescentDiscipline(li, f) {
 								okK, why = true, "values are rooted at reflect.ValueOf(*config.Config); every struct of that tree outside the property leaves has exported fields only; and the traversal never descends into a field that answers to StagedConfigProp (each descent follows the failed assertion on that field), so no unexported field is reached"
@@ -1495,6 +1535,65 @@ func reflectShape(li *LockInfo, v ssa.Value, assume map[ssa.Value]string) string
 		return sh
 	}
 	switch x := v.(type) {
+	case *ssa.UnOp:
+		// a load of a variable that lives in a cell because a function literal captures it: in the function that
+		// declares it (Alloc) or in the literal (FreeVar). The cell holds what was stored into it; the idiom
+		// `if v.Kind() == Pointer { v = v.Elem() }` leaves a struct in it if it held a pointer to one.
+		if x.Op == token.MUL {
+			var cell *ssa.Alloc
+			switch y := x.X.(type) {
+			case *ssa.Alloc:
+				cell = y
+			case *ssa.FreeVar:
+				if b := freeVarBinding(y); b != nil {
+					cell, _ = b.(*ssa.Alloc)
+				}
+			}
+			if cell == nil {
+				return ""
+			}
+			sts := storesTo(cell)
+			if len(sts) == 0 {
+				return ""
+			}
+			shapes := map[string]bool{}
+			derefGuarded := false
+			as := map[ssa.Value]string{}
+			for k, v2 := range assume {
+				as[k] = v2
+			}
+			for _, st := range sts {
+				// a store of Elem(load of this cell) under Kind(load)==Pointer
+				if c2, ok := st.Val.(*ssa.Call); ok && calleeName(c2) == "(reflect.Value).Elem" {
+					if ld, ok := callArgs(c2)[0].(*ssa.UnOp); ok && ld.X == ssa.Value(cell) {
+						for _, fc := range factsAt(st.Parent(), st) {
+							if bo, isB := fc.cond.(*ssa.BinOp); isB && bo.Op == token.EQL && fc.truth {
+								if k, isC := constInt(bo.Y); isC && k == 22 {
+									if kc, isK := bo.X.(*ssa.Call); isK && calleeName(kc) == "(reflect.Value).Kind" {
+										if l2, ok := callArgs(kc)[0].(*ssa.UnOp); ok && l2.X == ssa.Value(cell) {
+											derefGuarded = true
+										}
+									}
+								}
+							}
+						}
+						continue
+					}
+				}
+				shapes[reflectShape(li, st.Val, as)] = true
+			}
+			if len(shapes) != 1 {
+				return ""
+			}
+			for sh := range shapes {
+				if sh == "ptr" && derefGuarded {
+					return "struct"
+				}
+				if sh != "ptr" || !derefGuarded {
+					return sh
+				}
+			}
+		}
 	case *ssa.Call:
 		args := callArgs(x)
 		switch calleeName(x) {
@@ -1894,6 +1993,12 @@ func reflectDescentDiscipline(li *LockInfo, f *ssa.Function) bool {
 				return false
 			}
 			header := func(b *ssa.BasicBlock) bool { return b != fld.Block() && b.Dominates(fld.Block()) }
+			// the next iteration also begins where the walk comes back to the field's own block from the top (a rotated
+			// loop has no separate header block)
+			fldPos := posOf(fld)
+			nextIter := func(i2 ssa.Instruction) bool {
+				return i2.Block() == fld.Block() && posOf(i2).i <= fldPos.i
+			}
 			// (b) no path field -> descent that avoids every test, except over a CanAddr(field)==false edge
 			skipCanAddrFalse := func(b *ssa.BasicBlock, si int) bool {
 				iff, ok := b.Instrs[len(b.Instrs)-1].(*ssa.If)
@@ -1919,7 +2024,7 @@ func reflectDescentDiscipline(li *LockInfo, f *ssa.Function) bool {
 					hit = true
 					return true
 				}
-				return isTest(i2) || (i2.Block() != fld.Block() && header(i2.Block()))
+				return isTest(i2) || nextIter(i2) || (i2.Block() != fld.Block() && header(i2.Block()))
 			}, nil, skipCanAddrFalse)
 			if hit {
 				okAll = false
@@ -1949,7 +2054,7 @@ func reflectDescentDiscipline(li *LockInfo, f *ssa.Function) bool {
 							reached = true
 							return true
 						}
-						return header(i2.Block())
+						return nextIter(i2) || header(i2.Block())
 					}, nil, nil)
 					if reached {
 						okAll = false
